@@ -267,9 +267,9 @@ def replay(case, ctx):
 
 def plan(tier, seed):
     sh = [{"kind": "exhaustive", "part": p, "nparts": 4} for p in range(4)]
-    n, per = (4, 5000) if tier == "quick" else (8, 400000)
+    n, per = (4, 25000) if tier == "quick" else (8, 400000)
     sh += [{"kind": "pairs", "n": per} for _ in range(n)]
-    n, per = (8, 300) if tier == "quick" else (16, 12000)
+    n, per = (8, 1500) if tier == "quick" else (16, 12000)
     sh += [{"kind": "scan", "n": per} for _ in range(n)]
     return sh
 
